@@ -144,6 +144,11 @@ def run(P, rep, tier):
                (len(guarded), sname, '' if ok else 'NOT ', fl))
     rep.floor('C06.D5', 2)
     run_acc16(P, rep)
+    # arithmetic belief contradictions inside SIMD kernels (shared with C07): a kernel that differs from its C reference makes
+    # the output depend on the instruction set chosen at run time
+    from rules.C07 import run_satsign, run_lanewidth
+    run_satsign(P, rep, 'C06.SATSIGN')
+    run_lanewidth(P, rep, 'C06.LANEWIDTH')
 
 
 
@@ -182,7 +187,7 @@ def _never_set_exempt(P, ptr, sites):
             return False, ''
     return True, why
 
-def run_acc16(P, rep):
+def run_acc16(P, rep, rule='C06.ACC16'):
     """16-bit lane capacity of the AVX2 variance family."""
     fname = [f for f in P.macros if f.endswith('ASM_AVX2/variance_avx2.c')]
     if not fname:
@@ -195,7 +200,7 @@ def run_acc16(P, rep):
         raise AnalysisBroken('variance_kernel_avx2 no longer has the shape (2 maddubs differences, one 16-bit accumulation): %d / %d' % (len(diffs), len(acc16)))
     LANES, PER_LANE = 16, 32767 // 255           # 256-bit register of 16-bit lanes; |difference| <= 255 for 8-bit input
     cap0 = LANES * PER_LANE                         # 2048 pixels
-    rep.ob('C06.ACC16', 'kernel', True, kern.loc(acc16[0]), 'variance_kernel_avx2: one 9-bit difference per pixel into %d 16-bit lanes: %d pixels fill a lane pass' % (LANES, cap0))
+    rep.ob(rule, 'kernel', True, kern.loc(acc16[0]), 'variance_kernel_avx2: one 9-bit difference per pixel into %d 16-bit lanes: %d pixels fill a lane pass' % (LANES, cap0))
 
     def reductions(fn):
         n = 0
@@ -208,7 +213,7 @@ def run_acc16(P, rep):
         fn = P.fn('variance_final_%s_avx2' % n)
         k = reductions(fn)
         caps[n] = cap0 >> k
-        rep.ob('C06.ACC16', 'finaliser:%s' % n, int(n) <= caps[n], fn.loc(), 'variance_final_%s_avx2 performs %d 16-bit reductions before widening: safe up to %d pixels' % (n, k, caps[n]))
+        rep.ob(rule, 'finaliser:%s' % n, int(n) <= caps[n], fn.loc(), 'variance_final_%s_avx2 performs %d 16-bit reductions before widening: safe up to %d pixels' % (n, k, caps[n]))
     ninst = 0
     for line, col, name, args in P.macros[fname[0]]:
         if name not in ('AOM_VAR_NO_LOOP_AVX2', 'AOM_VAR_LOOP_AVX2'):
@@ -232,6 +237,6 @@ def run_acc16(P, rep):
                 probs.append('rows per pass %d does not divide the height %d' % (uh, bh))
             if bw * uh > cap0:
                 probs.append('%d pixels (%dx%d) are accumulated per pass in 16-bit lanes, capacity %d: the sum wraps for |src - ref| above %d on average' % (bw * uh, bw, uh, cap0, 255 * cap0 // (bw * uh)))
-        rep.ob('C06.ACC16', '%s(%s)' % (name, ','.join(args)), not probs, '%s:%d' % (fname[0].replace('/repo/', ''), line),
+        rep.ob(rule, '%s(%s)' % (name, ','.join(args)), not probs, '%s:%d' % (fname[0].replace('/repo/', ''), line),
                ('%dx%d: %d pixels per 16-bit pass within capacity' % (bw, bh, bw * bh if name == 'AOM_VAR_NO_LOOP_AVX2' else bw * last)) if not probs else '; '.join(probs))
-    rep.floor('C06.ACC16', 18)
+    rep.floor(rule, 18)
